@@ -35,3 +35,6 @@ func NewWatcher(name string, events, include, exclude []string, t *task.Task) (*
 
 // EventName maps an fsnotify operation to the watcher's event name.
 func EventName(op fsnotify.Op) string { return watch.VerifEventName(op) }
+
+// UnifyMapKinds calls the normalisation applied to two raw documents before they are merged.
+func UnifyMapKinds(a, b map[string]interface{}) { config.VerifUnifyMapKinds(a, b) }
